@@ -55,43 +55,51 @@ Proof.
 Qed.
 Print Assumptions cache_update_and_preprocessing_write_only_fresh_objects.
 
-(* (3) The same for PROGRAMS: sequences, choices, loops with break / continue, return / raise
-   (Model/HeapProg.v).  For ANY program that passes the static check, every execution - whichever
-   branches are taken, however often each loop runs, however it ends - leaves every pre-existing
-   object exactly as it was. *)
+(* (3) The same for PROGRAMS: sequences, choices, loops with break / continue, return / raise, and CALLS of
+   the functions of a table (Model/HeapProg.v).  If every function of a table passes the static check - each
+   on its own, from the empty abstract state - then every execution of any of them, whichever branches are
+   taken, however often each loop runs, however deep the calls go (recursion included), however it ends,
+   leaves every pre-existing object exactly as it was. *)
+Theorem safe_table_preserves_old_objects : forall funs p e h o e' h',
+  safe_table funs = true -> In p funs -> pexec funs p (e, h) o (e', h') ->
+  List.length h <= List.length h' /\ forall l, l < List.length h -> nth_error h' l = nth_error h l.
+Proof. exact safe_table_preserves_old_objects_proof. Qed.
+Print Assumptions safe_table_preserves_old_objects.
+
+(* (a single program, no table) *)
 Theorem safe_prog_preserves_old_objects : forall p e h o e' h',
-  safe_prog p = true -> pexec p (e, h) o (e', h') ->
+  safe_prog p = true -> pexec [] p (e, h) o (e', h') ->
   List.length h <= List.length h' /\ forall l, l < List.length h -> nth_error h' l = nth_error h l.
 Proof. exact safe_prog_preserves_old_objects_proof. Qed.
 Print Assumptions safe_prog_preserves_old_objects.
 
-(* ... and the bodies of the verb front ends (alias, select, drop, rename, mutate, filter, arrange,
-   group_by, ungroup, summarize, slice_head, join and its four variants, union), of their nested
-   helpers, of preprocess_arg, of check_subquery (the rebuilding of the tree above an alias) and of the
-   modify_ast / verb wrappers (pipe/verbs.py, pipe/pipeable.py), of every map_subtree, of every
-   receiver-writing method map_children / map_col_roots / map_col_nodes (tree/verbs.py,
-   tree/col_expr.py; run on a shallow copy of the receiver, so that the theorem says that nothing but
-   the receiver is written) and of every _clone / clone (the tree nodes and the backends' source
-   tables: what export and build_query hand to a backend), re-read from /repo's source on every run
-   (generated/VerbEffects.v), pass it *)
-Lemma generated_progs_are_safe : forallb (fun np => safe_prog (snd np)) verb_progs = true.
+(* ... and the table regenerated from /repo's source on every run (generated/VerbEffects.v) passes it: the
+   bodies of the verb front ends (alias, select, drop, rename, mutate, filter, arrange, group_by, ungroup,
+   summarize, slice_head, join and its four variants, union), of their nested helpers, of preprocess_arg, of
+   check_subquery (the rebuilding of the tree above an alias), of the modify_ast / verb wrappers
+   (pipe/verbs.py, pipe/pipeable.py), of Cache.update, of every map_subtree, of every receiver-writing
+   method map_children / map_col_roots / map_col_nodes (tree/verbs.py, tree/col_expr.py; run on a shallow
+   copy of the receiver, so that the theorem says that nothing but the receiver is written) and of every
+   _clone / clone (the tree nodes and the backends' source tables: what export and build_query hand to a
+   backend).  A call of one of these functions inside another is a call in the model (PCalls: by simple
+   name, by method name to every definition of that name, a decorated verb through the wrapper). *)
+Lemma generated_table_is_safe : safe_table verb_table = true.
 Proof. vm_compute. reflexivity. Qed.
 
 Theorem verb_front_ends_write_only_fresh_objects : forall name p e h o e' h',
-  In (name, p) verb_progs -> pexec p (e, h) o (e', h') ->
+  In (name, p) verb_progs -> pexec verb_table p (e, h) o (e', h') ->
   forall l, l < List.length h -> nth_error h' l = nth_error h l.
 Proof.
   intros name p e h o e' h' Hin X.
-  pose proof (proj1 (forallb_forall _ _) generated_progs_are_safe (name, p) Hin) as S. simpl in S.
-  apply (safe_prog_preserves_old_objects_proof p e h o e' h' S X).
+  assert (Hp : In p verb_table) by (unfold verb_table; apply (in_map snd _ _ Hin)).
+  apply (safe_table_preserves_old_objects_proof verb_table p e h o e' h' generated_table_is_safe Hp X).
 Qed.
 Print Assumptions verb_front_ends_write_only_fresh_objects.
 
-(* PARTIAL: calls are not followed: a call of a function translated in the same run is taken to write
-   nothing that existed before it (its own theorem), the other callees are a list of trusted names
-   (tree constructors, argument checkers, readers; DESIGN.md I.6).  The clones made by export /
-   build_query and the backend compilers are not translated; for them immutability is decided by the
-   session runs. *)
+(* PARTIAL: the callees outside the table are a list of trusted names (tree constructors, argument
+   checkers, readers, the data-model hooks of Table / ColExpr; DESIGN.md I.6); callback parameters are taken
+   to be write-free.  The backend compilers (which rewrite the clone in place) are not translated; for them
+   immutability is decided by the session runs. *)
 
 (* the check is not vacuous: it rejects the two shapes of the defects this property is about *)
 Example in_place_extension_of_a_shared_list_is_rejected :
@@ -112,5 +120,9 @@ Example program_check_is_not_vacuous :
   /\ safe_prog (PLoop (pseq [PStmt (SLetCopies 1); PStmt (SAppend 1 RNew);
                              PLoop (PStmt (SSetElem 1 2 RAny)); PStmt (SMutElem 1); PIf PBreak PSkip])) = true
   /\ safe_prog (pseq [PStmt (SLetCopies 1); PStmt (SAppend 1 RAny)]) = false    (* an existing object joins the list *)
+  /\ safe_table [PCalls [1]; PStmt (SMutV 0)] = false           (* the callee writes its argument *)
+  /\ safe_table [PCalls [5]] = false                             (* a call that names no function of the table *)
+  /\ safe_table [PIf (PCalls [0; 1]) PSkip; pseq [PStmt (SLet 1 RNew); PCalls [0]; PStmt (SMutV 1)]] = true
+                                                                 (* recursion; a call keeps the caller's facts *)
   /\ (50 <= List.length verb_progs)%nat.
 Proof. vm_compute. repeat split; repeat constructor. Qed.
